@@ -1,10 +1,16 @@
 import AdfObdd.CliModel
+import AdfObdd.CliFaithful
 /-! # C15 — CLI output is faithful in every library mode
 
 Model: `Cli.run` (`CliModel.lean`) — the three arms of `App::run`, the per-mode wiring table
 (`Cli.implemented`) and the fixed order of the sections. "Prints exactly what the definitions
 prescribe" and "the three modes print the same sets" are read over the flags a mode implements
-(DESIGN.md §5); the wiring table is itself part of the model and is compared with the binary. -/
+(DESIGN.md §5); the wiring table is itself part of the model and is compared with the binary.
+
+Wiring and order: `sections_exact`, `sections_in_documented_order`, `sections_nodup`, `run_blocks`.
+Content: `cli_faithful` (every block of every invocation is, as a multiset of three-valued
+interpretations, the specification's answer for its section — `CliFaithful.lean`),
+`cli_faithful_without_search_flags`, `cli_faithful_every_large_bound`, `modes_print_same_sets`. -/
 namespace C15
 
 /-- the printed sections are exactly the requested ones the mode implements … -/
@@ -50,18 +56,103 @@ theorem modes_prescribe_same_sets (n : Nat) (tts : List Nat) (s : Cli.Section) (
 /-- malformed input: non-zero exit status, no interpretation printed -/
 theorem rejects_malformed : Cli.rejected.1 ≠ 0 ∧ Cli.rejected.2 = [] := by decide
 
-/-- full faithfulness statement, kept visible: every block of the model's output is, as a multiset
-of three-valued interpretations, the specification's answer for its section. PARTIAL: it is the
-composition of the exactness statements of C01–C05 for the concrete functions (`complete_exact`,
-`stable_exact`, `count_search_exact`, `ng_search`), which are not all proved yet; the binary is
-compared with both the model (line sequence) and the specification (multiset) on every run. -/
+/-! ## faithfulness: every block is the specification's answer
+
+`Cli.run` runs the two sections that use the nogood-learning search (`--twoval`, `--stmng`) with a
+bound of 1 000 000 loop iterations (the model must be a total function). C05 proves that the loop
+halts but gives no number, and a framework with more than a million two-valued models cannot be
+enumerated within the bound; so the statement about `Cli.run` itself carries the hypothesis
+`CliF.Halted` — "no search of this invocation hit the bound" (a Boolean the model computes:
+`CliF.haltsFromF`). It is discharged in two ways: it holds outright for every invocation without
+those two flags (`cli_faithful_without_search_flags`), and for every invocation it holds from some
+bound on (`cli_faithful_every_large_bound`, about `CliF.runF fuel`, the same model with the bound as
+a parameter; `CliF.runF 1000000 = Cli.run`, `run_is_bound_instance`).
+
+With respect to the statement written in the design round two hypotheses were sharpened: every atom
+of every condition is a statement of the framework (`NConc.atomsLt n`, what the parser guarantees;
+needed for the truth tables over `n` variables to represent the conditions, and by C05's two-valued
+mode) and `n ≤ VBOT` (the variable numbers fit; `buildNative_correct`). -/
+
+/-- full faithfulness statement: for EVERY library mode, flag set and heuristic, on the framework
+compiled from the written conditions, every block of the model's output is, as a multiset of
+three-valued interpretations, the specification's answer for its section -/
 def cli_faithful_statement : Prop :=
   ∀ (m : Cli.Mode) (f : Cli.Flags) (heu : SM.Heu) (n : Nat) (fms : List Fm),
-    fms.length = n → (∀ φ ∈ fms, φ.atomsOK) →
+    fms.length = n → n ≤ VBOT → (∀ φ ∈ fms, NConc.atomsLt n φ) →
     let b := buildNative n fms
+    CliF.Halted m f heu b.1 n b.2 →
     ∀ blk ∈ Cli.run m f heu b.1 n b.2,
       (blk.2.map (fun v => v.map storeIsConst)).Perm
         (Cli.specSection n (fms.map (fun φ => TT.ofFn n (fun a => φ.sem (fun v => a.testBit v)))) blk.1)
+
+/-- **C15, faithfulness** — proved: composition of C01 (grounded = least fixpoint; the hybrid arm's
+pre-grounded conditions are `pre D g`, `CliF.grounded_is_pre`), C02 (`complete_exact`), C03
+(`stable_exact`, `stablepre_exact`), C04 (`count_search_exact`), C05 (`ng_search_exact`), the
+pre-grounding invariance theorems (`pre_lfp`, `pre_complete_iff`, `pre_reduct_lfp_iff`), the store
+threading through the sections (`CliF.runFromF_faithful`) and the soundness of the executable
+specification (`SpecSound`) -/
+theorem cli_faithful : cli_faithful_statement := by
+  intro m f heu n fms hl hn ha b hh
+  exact CliF.run_faithful m f heu n fms hl hn ha hh
+
+/-- the hypothesis `Halted` is not needed when the invocation runs no bounded search -/
+theorem cli_faithful_without_search_flags (m : Cli.Mode) (f : Cli.Flags) (heu : SM.Heu) (n : Nat) (fms : List Fm)
+    (hl : fms.length = n) (hn : n ≤ VBOT) (ha : ∀ φ ∈ fms, NConc.atomsLt n φ)
+    (h1 : f.twoval = false) (h2 : f.stmng = false) :
+    ∀ blk ∈ Cli.run m f heu (buildNative n fms).1 n (buildNative n fms).2,
+      (blk.2.map (fun v => v.map storeIsConst)).Perm
+        (Cli.specSection n (fms.map (fun φ => TT.ofFn n (fun a => φ.sem (fun v => a.testBit v)))) blk.1) :=
+  CliF.run_faithful m f heu n fms hl hn ha (CliF.halted_of_no_search _ m f heu _ n _ h1 h2)
+
+/-- `Cli.run` is the bound-parametric model at the driver's bound -/
+theorem run_is_bound_instance (m : Cli.Mode) (f : Cli.Flags) (heu : SM.Heu) (s : Store) (n : Nat) (ac : List Nat) :
+    CliF.runF 1000000 m f heu s n ac = Cli.run m f heu s n ac := CliF.runF_eq m f heu s n ac
+
+/-- **C15, termination and faithfulness for every large bound**: every invocation has a bound from
+which on no search hits it and every block is the specification's answer — no hypothesis left -/
+theorem cli_faithful_every_large_bound (m : Cli.Mode) (f : Cli.Flags) (heu : SM.Heu) (n : Nat) (fms : List Fm)
+    (hl : fms.length = n) (hn : n ≤ VBOT) (ha : ∀ φ ∈ fms, NConc.atomsLt n φ) :
+    ∃ F0, ∀ fuel, F0 ≤ fuel →
+      CliF.HaltedF fuel m f heu (buildNative n fms).1 n (buildNative n fms).2 ∧
+      ∀ blk ∈ CliF.runF fuel m f heu (buildNative n fms).1 n (buildNative n fms).2,
+        (blk.2.map (fun v => v.map storeIsConst)).Perm
+          (Cli.specSection n (fms.map (fun φ => TT.ofFn n (fun a => φ.sem (fun v => a.testBit v)))) blk.1) :=
+  CliF.runF_faithful_eventually m f heu n fms hl hn ha
+
+/-- the three modes print the same sets: two invocations that differ in the library mode only print,
+for every section both modes implement, permutations of one another -/
+theorem modes_print_same_sets (m m' : Cli.Mode) (f : Cli.Flags) (heu heu' : SM.Heu) (n : Nat) (fms : List Fm)
+    (hl : fms.length = n) (hn : n ≤ VBOT) (ha : ∀ φ ∈ fms, NConc.atomsLt n φ)
+    (hh : CliF.Halted m f heu (buildNative n fms).1 n (buildNative n fms).2)
+    (hh' : CliF.Halted m' f heu' (buildNative n fms).1 n (buildNative n fms).2)
+    (blk blk' : Cli.Section × List (List Nat))
+    (hb : blk ∈ Cli.run m f heu (buildNative n fms).1 n (buildNative n fms).2)
+    (hb' : blk' ∈ Cli.run m' f heu' (buildNative n fms).1 n (buildNative n fms).2) (hs : blk.1 = blk'.1) :
+    (blk.2.map (fun v => v.map storeIsConst)).Perm (blk'.2.map (fun v => v.map storeIsConst)) := by
+  have h1 := CliF.run_faithful m f heu n fms hl hn ha hh blk hb
+  have h2 := CliF.run_faithful m' f heu' n fms hl hn ha hh' blk' hb'
+  unfold CliF.Faithful at h1 h2
+  rw [hs] at h1
+  exact h1.trans h2.symm
+
+/-! non-vacuity: `s(a). s(b). ac(a, b). ac(b, a).` with every flag set, default (hybrid) mode: the
+hypotheses hold, no search hits the bound, nine blocks are printed (evaluation by the compiler's
+interpreter — the store's hash tables do not reduce in the kernel) -/
+example : (∀ φ ∈ [Fm.atom 1, Fm.atom 0], NConc.atomsLt 2 φ) ∧ 2 ≤ VBOT := by
+  refine ⟨?_, by simp [VBOT]⟩
+  intro φ hφ
+  simp at hφ
+  rcases hφ with h | h <;> subst h <;> simp [NConc.atomsLt]
+
+def exFlags : Cli.Flags :=
+  { grd := true, com := true, twoval := true, stm := true, stmca := true, stmcb := true, stmpre := true,
+    stmrew := true, stmng := true }
+
+#guard CliF.haltsFromF 1000000 .simple 2 (Cli.startOf .hybrid (buildNative 2 [.atom 1, .atom 0]).1 2
+    (buildNative 2 [.atom 1, .atom 0]).2).2 (Cli.sections .hybrid exFlags)
+    (Cli.startOf .hybrid (buildNative 2 [.atom 1, .atom 0]).1 2 (buildNative 2 [.atom 1, .atom 0]).2).1
+#guard ((Cli.run .hybrid exFlags .simple (buildNative 2 [.atom 1, .atom 0]).1 2 (buildNative 2 [.atom 1, .atom 0]).2).map
+    (fun blk => (blk.2.map (fun v => v.map storeIsConst)).length)) == [1, 3, 2, 1, 1, 1, 1, 1, 1]
 
 example : Cli.sections .naive { grd := true, stm := true, stmca := true } = [.grd, .stm] := by decide
 
